@@ -3,7 +3,7 @@
 #include "common.h"
 #include "refmodel.h"
 
-const char *CHK_RULE = "one case = one command with 1..6 read-write variables of mixed types; AT+RT? is captured, the variables are scrambled, AT+RT=<captured text> must be "
+const char *CHK_RULE = "one case = one command with 1..6 read-write variables of mixed types (30% of the tuples also hold read-only variables, 25% print the line several times through a read handler returning DATA_NEXT and a later row is fed back); AT+RT? is captured, the variables are scrambled, AT+RT=<captured text> must be "
                        "answered OK and restore every variable (strings up to and including the NUL); sweep: every 8- and 16-bit pattern (thorough: all, quick: stride) for the "
                        "three numeric types, every buffer size 1..64; random: boundary-biased 32-bit values, 0x00/0x80/0xFF-heavy buffers, strings rich in quote, backslash, LF, "
                        "comma; capacities from generous down to exactly fitting; every case non-trivial; distinct by (types, sizes, value bytes)";
@@ -12,12 +12,20 @@ void chk_describe(FILE *f) { w_describe(f); fprintf(f, "%s\n", note); char b[600
 
 static struct { int type; size_t size; uint8_t val[80]; } SP[6]; static int NV;
 static bool with_events, got_data; static char data_unit[4600]; static size_t data_len; static int ncodes, last_ok;
+static int ACC[6];                      /* access of each variable: read-write, or (mixed tuples) read-only: printed by READ, accepted and skipped by WRITE */
+static int rows_wanted, rows_seen, row_pick;      /* multi-row READ: the command's read handler asks for the automatically formatted line several times */
+static cat_return_state rows_policy(struct hcall *h)
+{
+        if (h->fsm != FSM_A || h->kind != K_READ) return CAT_RETURN_STATE_DATA_OK;
+        return ++rows_seen < rows_wanted ? CAT_RETURN_STATE_DATA_NEXT : CAT_RETURN_STATE_DATA_OK;
+}
+static int units_seen;
 static void on_unit(bool isA, bool raw, const char *text, size_t len, bool a, bool b)
 {
         (void)raw; (void)a; (void)b;
         if (!isA) return;
         if (strcmp(text, "OK") == 0 || strcmp(text, "ERROR") == 0) { ncodes++; last_ok = text[0] == 'O'; return; }
-        if (!got_data && len < sizeof data_unit) { memcpy(data_unit, text, len + 1); data_len = len; got_data = true; }
+        if (units_seen++ <= row_pick && len < sizeof data_unit) { memcpy(data_unit, text, len + 1); data_len = len; got_data = true; }      /* the row that is fed back */
 }
 /* service to quiescence; with events enabled one READ event of "+EV" is triggered at a random service step */
 static bool service_with_event(int nev)
@@ -59,7 +67,9 @@ static void round_trip(int capmode)
                 ev[1].type = CAT_VAR_BUF_STRING; { uint8_t *d = w_vdata(&ev[1], 12); memcpy(d, "ev\"t,\\x", 8); }
         }
         struct cat_variable *v = w_vars(&a[0], (size_t)NV);
-        for (int j = 0; j < NV; j++) { v[j].type = (cat_var_type)SP[j].type; v[j].access = CAT_VAR_ACCESS_READ_WRITE; uint8_t *d = w_vdata(&v[j], SP[j].size); memcpy(d, SP[j].val, SP[j].size); memcpy(orig[j], d, SP[j].size); }
+        rows_wanted = chance(25) ? 2 + (int)rn(3) : 1; rows_seen = 0; row_pick = (int)rn((unsigned)rows_wanted); units_seen = 0;
+        if (rows_wanted > 1) { a[0].read = h_read; POLICY = rows_policy; CNT("multi_row_reads"); }
+        for (int j = 0; j < NV; j++) { v[j].type = (cat_var_type)SP[j].type; v[j].access = (cat_var_access)ACC[j]; uint8_t *d = w_vdata(&v[j], SP[j].size); memcpy(d, SP[j].val, SP[j].size); memcpy(orig[j], d, SP[j].size); }
         /* capacity: the response text is "+RT=" + args; the write needs args+1 <= cap.  capmode 0 generous, 1 exactly fitting the READ text, 2 one more */
         char ref[5000]; int tl = ref_fmt_read(&a[0], ref, sizeof ref);
         size_t cap = 4200;
@@ -69,7 +79,7 @@ static void round_trip(int capmode)
         w_buffers(shared ? cap * 2 + rn(2) : cap, shared, with_events ? 200 : 0);
         w_init((int)rn(2));
         ON_UNIT = on_unit;
-        in_reset(); in_puts("AT+RT?\n"); out_reset(); units_reset(); got_data = false; ncodes = 0;
+        in_reset(); in_puts("AT+RT?\n"); out_reset(); units_reset(); got_data = false; ncodes = 0; units_seen = 0;
         if (!service_with_event(1)) { inconclusive("no quiescence"); return; }
         if (!got_data || ncodes != 1 || last_ok != 1 || strncmp(data_unit, "+RT=", 4) != 0) {
                 if (capmode == 0) viol("C07", "read-refused", "AT+RT? with generous capacity was not answered with a data line and OK");
@@ -77,10 +87,12 @@ static void round_trip(int capmode)
                 return;
         }
         arglen = data_len - 4; memcpy(argtext, data_unit + 4, arglen);
-        for (int j = 0; j < NV; j++) { uint8_t *d = v[j].data; for (size_t b = 0; b < SP[j].size; b++) d[b] = (uint8_t)(SP[j].type == CAT_VAR_BUF_STRING ? 0xA5 + b : d[b] ^ 0x5A); }
-        in_reset(); in_puts("AT+RT="); in_put(argtext, arglen); in_putc('\n'); out_reset(); units_reset(); got_data = false; ncodes = 0;
+        for (int j = 0; j < NV; j++) { if (ACC[j] != CAT_VAR_ACCESS_READ_WRITE) continue; uint8_t *d = v[j].data; for (size_t b = 0; b < SP[j].size; b++) d[b] = (uint8_t)(SP[j].type == CAT_VAR_BUF_STRING ? 0xA5 + b : d[b] ^ 0x5A); }
+        in_reset(); in_puts("AT+RT="); in_put(argtext, arglen); in_putc('\n'); out_reset(); units_reset(); got_data = false; ncodes = 0; units_seen = 1000;
         if (!service_with_event(1)) { inconclusive("no quiescence"); return; }
         CNT("round_trips"); if (with_events) CNT("round_trips_with_concurrent_events");
+        { bool ro = false; for (int j = 0; j < NV; j++) if (ACC[j] != CAT_VAR_ACCESS_READ_WRITE) ro = true; if (ro) CNT("round_trips_with_read_only_variables_in_the_list"); }
+        if (rows_wanted > 1 && row_pick > 0) CNT("round_trips_of_a_later_row");
         if (!(RESULT_CODES == 1 && LAST_CODE == 'O')) { viol("C07", "write-back-refused", "the argument list printed by READ was not accepted by WRITE (capacity %zu, text %zu bytes)", W.capA, arglen); return; }
         for (int j = 0; j < NV; j++) {
                 size_t n = SP[j].size;
@@ -106,6 +118,7 @@ struct case_budget chk_budget(const char *tier)
 void chk_run_case(uint64_t seed, long c, bool is_sweep)
 {
         (void)seed; note[0] = 0;
+        for (int j = 0; j < 6; j++) ACC[j] = CAT_VAR_ACCESS_READ_WRITE;
         if (is_sweep) {
                 long per = n_num() / 3;
                 if (c < n_num()) {
@@ -127,6 +140,7 @@ void chk_run_case(uint64_t seed, long c, bool is_sweep)
         }
         NV = 1 + (int)rn(6);
         for (int j = 0; j < NV; j++) rand_spec(j);
+        if (NV >= 2 && chance(30)) { int rw = (int)rn((unsigned)NV); for (int j = 0; j < NV; j++) if (j != rw && chance(50)) ACC[j] = CAT_VAR_ACCESS_READ_ONLY; }      /* at least one read-write variable stays */
         snprintf(note, sizeof note, "random tuple of %d variables", NV);
         round_trip(chance(30) ? 1 + (int)rn(2) : 0);
 }
